@@ -3247,7 +3247,6 @@ def dict_to_Expr(d, modifs = {}, opmode = x86_afs.u32, admode = x86_afs.u32, seg
         if ia32_rexpr.symb in d:
             return symb_to_Expr(d[ia32_rexpr.symb])
     elif is_address(d):
-        int_cast = tab_afs_int[admode]
         #segm = None
         # XXX test
         segm = x86_afs.r_ds
@@ -3282,10 +3281,12 @@ def dict_to_Expr(d, modifs = {}, opmode = x86_afs.u32, admode = x86_afs.u32, seg
                     else:
                         out.append(ia32_rexpr.reg_list32[k])
                 else:
+                    # the scale has the width of the index register (admode
+                    # may also be mm/xmm for MMX/SSE rows)
                     if admode == x86_afs.u16:
-                        out.append(ExprOp('*', ExprInt(int_cast(d[k])), ia32_rexpr.reg_list16[k]))
+                        out.append(ExprOp('*', ExprInt(uint16(d[k])), ia32_rexpr.reg_list16[k]))
                     else:
-                        out.append(ExprOp('*', ExprInt(int_cast(d[k])), ia32_rexpr.reg_list32[k]))
+                        out.append(ExprOp('*', ExprInt(uint32(d[k])), ia32_rexpr.reg_list32[k]))
 
             elif k == ia32_rexpr.symb:
                 out.append(symb_to_Expr(d[ia32_rexpr.symb]))
